@@ -4,8 +4,10 @@ usage: lib/seedkeep.py P i "<caught-by text>" ["<strengthening done>"]"""
 import json, os, shutil, sys
 P, I, caught = sys.argv[1], sys.argv[2], sys.argv[3]
 strength = sys.argv[4] if len(sys.argv) > 4 else ""
-src = "/tmp/seed-%s-out" % P
-dst = os.path.join(os.path.dirname(os.path.dirname(os.path.abspath(__file__))), "seeded", "%s-%s" % (P, I))
+TAG = os.environ.get("SEEDTAG", "")
+src = "/tmp/seed%s-%s-out" % (TAG, P)
+KEEP = str(int(I) + 2 * (int(TAG) - 1)) if TAG else I   # second round: seeds 3 and 4
+dst = os.path.join(os.path.dirname(os.path.dirname(os.path.abspath(__file__))), "seeded", "%s-%s" % (P, KEEP))
 shutil.rmtree(dst, ignore_errors=True)
 os.makedirs(dst)
 shutil.copy(os.path.join(src, "patch%s.diff" % I), os.path.join(dst, "patch.diff"))
@@ -17,14 +19,14 @@ if os.path.exists(sh):
     shutil.copy(sh, os.path.join(dst, "demo.sh"))
 meta_txt = open(os.path.join(src, "meta%s.txt" % I)).read() if os.path.exists(os.path.join(src, "meta%s.txt" % I)) else ""
 meta = dict(
-    property=P, seed="%s-%s" % (P, I),
+    property=P, seed="%s-%s" % (P, KEEP),
     author="fresh sub-agent given only the property text and a scratch worktree of /repo (nothing from /verif)",
     breaks_and_needs=meta_txt.strip()[:6000],
     confirmed_by_coordinator=["git apply patch.diff in a scratch worktree; go build ./... && go test -count=1 ./... green",
                               "demonstration exits non-zero with the patch, 0 without (lib/seedconfirm.sh)",
-                              "lib/seedrun.sh %s seeded/%s-%s/patch.diff  (check run against the patched scratch tree)" % (P, P, I)],
+                              "lib/seedrun.sh %s seeded/%s-%s/patch.diff  (check run against the patched scratch tree)" % (P, P, KEEP)],
     caught_by=caught, strengthening=strength,
-    demo_note="the demo's go.mod replaces grol.io/grol with a scratch worktree path (/tmp/seed-%s); copy /repo/go.sum next to it" % P,
+    demo_note="the demo's go.mod replaces grol.io/grol with a scratch worktree path (/tmp/seed%s-%s); copy /repo/go.sum next to it" % (TAG, P),
 )
 json.dump(meta, open(os.path.join(dst, "meta.json"), "w"), indent=1)
 print("kept", dst)
